@@ -177,7 +177,7 @@ class Integrate:
         # value from the left, also where the curve jumps
         pieces = curve.split(knots)
         for piece, start, end in zip(pieces, knots[:-1], knots[1:]):
-            nodes = tuple(start + (end - start) * node for node in nodes_0to1)
+            nodes = tuple((1 - node) * start + node * end for node in nodes_0to1)
             curve_vals = tuple(piece.eval(node) for node in nodes)
             function_vals = tuple(function(node) for node in nodes)
             new_integral = sum(
@@ -282,7 +282,7 @@ class Integrate:
         integrals = []
         pieces = curve.split(knots)
         for piece, start, end in zip(pieces, knots[:-1], knots[1:]):
-            nodes = tuple(start + (end - start) * node for node in nodes_0to1)
+            nodes = tuple((1 - node) * start + node * end for node in nodes_0to1)
             curve_vals = tuple(piece.eval(node) for node in nodes)
             abscurve_vals = tuple(np.sqrt(val @ val) for val in curve_vals)
             function_vals = tuple(function(node) for node in nodes)
@@ -354,7 +354,7 @@ class Integrate:
         knots = knotvector.knots
         integrals = []
         for start, end in zip(knots[:-1], knots[1:]):
-            nodes = tuple(start + (end - start) * node for node in nodes_0to1)
+            nodes = tuple((1 - node) * start + node * end for node in nodes_0to1)
             function_vals = tuple(function(node) for node in nodes)
             new_integral = sum(map(np.prod, zip(integ_array, function_vals)))
             integrals.append((end - start) * new_integral)
